@@ -1,6 +1,7 @@
 (* C07/Property.v — property theorems only. *)
 From Coq Require Import String List Bool ZArith.
-From Verif Require Import Base.Str C07.Model C07.Spec C07.Proofs C07.Corr.
+From Verif Require Import Base.Str Base.Py C07.Model C07.Spec C07.Proofs C07.Corr C07.Source.
+From VerifGen Require Import C07Src.
 Import ListNotations.
 
 (* C07: for every receiver configuration (entity type, endpoints in every role, signing requirement,
@@ -148,3 +149,14 @@ Theorem c07_nonvacuous :
   /\ (requires_signed (cfg ex_redirect) /\ imodel ex_redirect = Accept).
 Proof. exact (conj accepted_post accepted_redirect). Qed.
 Print Assumptions c07_nonvacuous.
+
+(* tie to the source TEXT: Request._verify as translated from /repo's current source on this run
+   (coq/gen/C07Src.v, harness/py2coq.py) computes the model's version and Destination tests, for every
+   version string, Destination and receiver address list *)
+Theorem c07_source_request_verify : forall iok b addrs,
+  src_request_verify iok (enc_request b addrs)
+  = if negb (String.eqb (version b) "2.0") then PExc "VersionMismatch"
+    else if negb (dest_ok addrs b) then PExc "OtherError"
+    else iok.
+Proof. exact src_request_verify_is_model. Qed.
+Print Assumptions c07_source_request_verify.
